@@ -2,7 +2,7 @@
    shouldRespondDelta, Send, sendDelta, Proxy watched-resource helpers) and Model.v (closed loops).
    nil_policy: = the ErrorDetail closure as first read (dereferences nil, K14),
    = the closure guards nil. *)
-From V Require Import lib.Verdict C04.Model C04.Proofs C04.ProofsSotw C04.ProofsDelta.
+From V Require Import lib.Verdict C04.Model C04.Proofs C04.ProofsSotw C04.ProofsDelta C04.ProofsLoop C04.ProofsLoopDelta.
 Open Scope N_scope.
 
 (* ---------------------------------------------------------------- rows, SotW *)
@@ -21,7 +21,8 @@ Proof. exact reconnect_responds. Qed.
 Print Assumptions C04_reconnect_responds.
 
 Theorem C04_new_watch_records_request : forall st t ns,
-  exists w, new_watched_resource st t ns t = Some w /\ names w = norm ns /\ nonce_sent w = 0.
+  exists w, new_watched_resource st t ns t = Some w /\ names w = norm ns /\ nonce_sent w = 0 /\
+            always_respond w = false.
 Proof. exact new_watched_has_names. Qed.
 Print Assumptions C04_new_watch_records_request.
 
@@ -135,14 +136,48 @@ Print Assumptions C04_delta_nack_unwatched_is_noop.
 
 (* ---------------------------------------------------------------- no request/response loop *)
 
-(* along every op sequence (requests of both protocols and sends, any order, any state) the
-   number of answers is at most the number of requests that are a first request, a reconnect,
-   a subscription change on the current nonce, or a warming-forced re-answer *)
-Theorem C04_no_loop_partial : forall ops st,
+(* SotW closed loop, any type, every schedule (client (re)subscriptions, ACKs/NACKs, request
+   processing with or without a sent response, pushes, traffic of other types), client possibly
+   holding a nonce of an earlier stream: the number of requests the server answers is at most the
+   number of client (re)subscriptions (first requests, reconnects, subscription changes) plus the
+   number of steps of other types that armed AlwaysRespond; pushes never cause an answer, so
+   #answers <= #subscriptions + #pushes + #forcings holds a fortiori *)
+Theorem C04_no_loop_sotw : forall t st0 cn0 ls, st0 t = None ->
+  let c := snd (lrun t (sinit st0 cn0) ls lzero) in
+  (l_ans c <= l_csub c + l_forc c)%nat /\ (l_ans c <= l_csub c + l_push c + l_forc c)%nat.
+Proof.
+  intros t st0 cn0 ls H0 c. pose proof (no_loop_sotw t st0 cn0 ls H0) as H. fold c in H.
+  split; [exact H|]. apply (Nat.le_trans _ _ _ H). rewrite <- Nat.add_assoc.
+  apply Nat.add_le_mono_l. apply Nat.le_add_l.
+Qed.
+Print Assumptions C04_no_loop_sotw.
+
+(* ... and with no external cause the exchange terminates: from every reachable state, a schedule of
+   request processing and client receives only fires at most
+   2*|responses in flight| + |requests in flight| + 2*(pending changes + armed flag) labels *)
+Theorem C04_exchange_terminates_sotw : forall t st0 cn0 ls ls', st0 t = None ->
+  forallb internal_label ls' = true ->
+  let sc := lrun t (sinit st0 cn0) ls lzero in
+  (fired t (fst sc) ls' <= measure t (fst sc) (snd sc))%nat.
+Proof. exact exchange_terminates_sotw. Qed.
+Print Assumptions C04_exchange_terminates_sotw.
+
+(* delta closed loop, any type: answers <= spontaneous requests (first, reconnect, subscription
+   change) + ACKs that carry piggybacked changes + arming steps of other types *)
+Theorem C04_no_loop_delta : forall t st0 cn0 ls, st0 t = None ->
+  let c := snd (dlrun t (dinit st0 cn0) ls dczero) in
+  (dc_ans c <= dc_req c + dc_forc c)%nat.
+Proof. exact no_loop_delta. Qed.
+Print Assumptions C04_no_loop_delta.
+
+(* open loop, any op sequence from any state (requests of both protocols and sends in any order):
+   every answer has a cause - first request, reconnect, subscription change on the current nonce, or
+   a warming-forced re-answer *)
+Theorem C04_every_answer_has_a_cause : forall ops st,
   let c := fst (count_run st ops zero_counts) in
   (n_resp c <= n_first c + n_reconnect c + n_subchange c + n_forced c)%nat.
 Proof. intros ops st. apply (count_run_bound ops st zero_counts). cbn. apply le_n. Qed.
-Print Assumptions C04_no_loop_partial.
+Print Assumptions C04_every_answer_has_a_cause.
 
 (* a forced answer clears AlwaysRespond: it cannot repeat without a new CDS (re)initialisation *)
 Theorem C04_forced_answer_is_one_shot : forall st r,
@@ -211,6 +246,46 @@ Theorem C04_record_matches_client_delta_piggyback_partial : forall t, is_wildcar
 Proof. exact record_matches_client_delta_partial. Qed.
 Print Assumptions C04_record_matches_client_delta_piggyback_partial.
 
+(* ---------------------------------------------------------------- delta record, wildcard types *)
+
+(* where pushDeltaXds hands sendDelta newResourceNames (wildcard types whose names are not managed by
+   the generator) a sent response overwrites the record with exactly the generated names *)
+Theorem C04_delta_send_sets_record : forall st t n gen,
+  should_set_watched t = true -> is_debug t = false ->
+  forall x, In x (record (send_delta st t n true (newnames_for t gen)) t) <-> In x gen.
+Proof. exact send_delta_sets_record. Qed.
+Print Assumptions C04_delta_send_sets_record.
+
+(* a delta request that is not dropped updates the record as a set, for every type that stores names *)
+Theorem C04_delta_request_updates_record : forall st r out st',
+  requires_names_mod (d_ty r) = false ->
+  should_respond_delta st r = (out, st') -> dropped st r = false ->
+  forall x, In x (record st' (d_ty r)) <->
+     ((In x (record st (d_ty r)) \/ In x (d_sub r) \/ In x (d_init r)) /\ ~ In x (d_unsub r) /\ x <> star).
+Proof. exact request_updates_record. Qed.
+Print Assumptions C04_delta_request_updates_record.
+
+(* Address / Workload with a wildcard subscription: no names are stored at all *)
+Theorem C04_delta_managed_wildcard_stores_no_names : forall st r out st',
+  requires_names_mod (d_ty r) = true -> d_err r = None ->
+  should_respond_delta st r = (out, st') ->
+  match st (d_ty r) with
+  | None => snd (fst (delta_watched_resources [] r)) = true -> record st' (d_ty r) = []
+  | Some w => wildcard w = true -> dropped st r = false -> record st' (d_ty r) = []
+  end.
+Proof. exact wildcard_managed_record_empty. Qed.
+Print Assumptions C04_delta_managed_wildcard_stores_no_names.
+
+(* closed loop, wildcard types: along every schedule the record equals the reference set [wrun]:
+   the generated names of the last sent response, updated by every later request that was not
+   dropped, untouched by anything else *)
+Theorem C04_record_wildcard_delta : forall t, should_set_watched t = true -> is_debug t = false ->
+  forall st0 cn0 ls, st0 t = None ->
+  let sp := wrun t (dinit st0 cn0) ls (fun _ => False) in
+  forall x, In x (record (x_srv (fst sp)) t) <-> snd sp x.
+Proof. exact record_wildcard_delta. Qed.
+Print Assumptions C04_record_wildcard_delta.
+
 (* ---------------------------------------------------------------- hypotheses are satisfiable *)
 
 Example C04_sotw_loop_nonvacuous :
@@ -237,4 +312,11 @@ Example C04_rows_nonvacuous :
   fst (should_respond st (mkReq RDS [1; 2] 4 None)) = Resp false [] /\
   fst (should_respond st (mkReq RDS [1; 2] 5 (Some 1))) = Resp false [] /\
   fst (should_respond st (mkReq LDS [] 5 (Some 1))) = Resp false [].
+Proof. vm_compute. repeat split. Qed.
+
+Example C04_no_loop_counts_nonvacuous :
+  let c := snd (lrun EDS (sinit empty_watched 0)
+             [CSub [1]; SProc 1 true; CRecv None; SProc 2 true; SOther (OReq (mkReq CDS [] 0 None));
+              SPush 3; CRecv None; SProc 4 true; CRecv None; SProc 5 true; CSub [1; 2]; SProc 6 true] lzero) in
+  l_ans c = 3%nat /\ l_csub c = 2%nat /\ l_push c = 1%nat /\ l_forc c = 1%nat.
 Proof. vm_compute. repeat split. Qed.
